@@ -19,7 +19,7 @@ EXPLANATION = (
     "CURIE prefix canonical in upgrade_prefix_map (z3 str.<=) and its output always accepted by the strict constructor; "
     "ignored JSON-LD terms really ignored; str / Path locations give the same records as the object. Symbolic contents "
     "cover every dictionary order of a concrete input.")
-BOUNDS = dict(map_entries="<= 3", priority_list_length="<= 3", jsonld_terms="<= 2 of mixed kinds", strings="unbounded, full z3 alphabet")
+BOUNDS = dict(map_entries="<= 4 (quick <= 3)", priority_list_length="<= 3", jsonld_terms="<= 2 of mixed kinds", strings="unbounded, full z3 alphabet")
 OUTSIDE = ["real file encoding and JSON text escaping (files are an in-memory table in the symbolic run; the replay uses real files)",
            "URL locations (_get_remote_json)", "from_shacl (rdflib parser and SPARQL engine)", "maps of more than 3 entries"]
 ASSUMPTIONS = ["json.load/json.dump round-trip JSON values unchanged (in-memory file stub)", "pydantic BaseModel stub",
@@ -31,6 +31,8 @@ SHAPES = [
     ("prefix_map", 3, False, T, dict(budget=1200, shard=6)), ("priority", 3, False, T, dict(budget=1800, shard=6)),
     ("reverse", 3, False, Q, dict(budget=2400, shard=6)), ("upgrade", 3, False, T, dict(budget=2400, shard=8)),
     ("jsonld", 3, False, T, dict(budget=2400, shard=8)),
+    ("prefix_map", 4, False, T, dict(budget=2400, shard=8)), ("reverse", 4, False, T, dict(budget=3000, shard=10)),
+    ("upgrade", 4, False, T, dict(budget=3000, shard=10)), ("rdflib", 3, False, T, dict(budget=1200, shard=6)), ("files", 3, False, T, dict(budget=1800, shard=6)),
 ]
 
 EXPECT = {"prefix_map": ["ok"], "priority": ["ok"], "reverse": ["ok"], "upgrade": ["ok"], "jsonld": ["ok"], "epm": ["ok"],
